@@ -1,6 +1,7 @@
 (* C04 - note-length expressions denote the documented tick counts and compose additively.
    This file contains only the property statements; every proof is `exact <lemma>`. *)
-From Sakura.Model Require Import Base Cursor Length.
+From Sakura.Model Require Import Base Cursor Length LexCore.
+From Sakura.Model Require Expr.
 From Sakura.Spec Require Import LenSpec.
 From Sakura.Proofs Require Import LengthP LayoutP LenBoundaryP.
 
@@ -85,6 +86,41 @@ Example C04_token_boundary_example :
      = (print (fst ex_e, [(true, mkAtom false false [4] 1); (true, mkAtom false false [8] 2)]), [99], 2).
 Proof. repeat split; vm_compute; reflexivity. Qed.
 
+(* ---- `!L`: a numeric argument written as a length ----
+   The three places of the model where lexer.rs reads `!` + length: read_arg_value (arguments of n o v q t and the
+   lists of the reservation commands; a loop count only in the forms [=!L ..] and [(!L) ..]), read_value as used for the literal arguments of the (..) commands
+   (LexCore.read_calc_literal) and read_value of the expression language (Expr.read_value).  In all of them `!L` followed by
+   a boundary of the length is the tick count of L with the quarter note (= the time base) as the value of omitted parts:
+   denote tb tb e.  For read_calc_literal the text after the length must not be an operator character
+   (bang_follow r = len_boundary r && not an operator: e.g. ',' ')' or the end) - an operator would continue the expression. *)
+Theorem C04_bang : forall (tb : Z) (e : expr) (r : list Z) (ln : Z) (f : nat) (lexvars : list (list Z)),
+  expr_wf e = true ->
+  (len_boundary r = true -> read_arg_value (S f) tb (33 :: print e ++ r) ln = Ok (AInt (denote tb tb e), r, ln)) /\
+  (bang_follow r = true -> read_calc_literal tb (33 :: print e ++ r) ln = Ok (Some (denote tb tb e), r, ln)) /\
+  (len_boundary r = true -> Expr.read_value tb lexvars (S f) (33 :: print e ++ r) = Ok (Some (Expr.TConstInt (denote tb tb e)), r)).
+Proof. exact bang_all. Qed.
+
+(* blanks and TABs between the argument position and the '!' are skipped *)
+Theorem C04_bang_blanks : forall (f : nat) (tb : Z) (bl : list Z) (e : expr) (r : list Z) (ln : Z),
+  forallb (fun c => (c =? 32) || (c =? 9)) bl = true -> expr_wf e = true -> len_boundary r = true ->
+  read_arg_value (S f) tb (bl ++ 33 :: print e ++ r) ln = Ok (AInt (denote tb tb e), r, ln).
+Proof. exact read_arg_value_bang_blanks. Qed.
+
+(* a parenthesised list "(!L1,!L2,...)" as the reservation commands read it (v.onTime(..) etc.): the tick counts, in order *)
+Theorem C04_bang_array : forall (tb : Z) (es : list expr) (r : list Z) (ln : Z), es <> [] -> forallb expr_wf es = true ->
+  read_arg_int_array tb (40 :: print_bangs es ++ 41 :: r) ln = Ok (map (denote tb tb) es, r, ln).
+Proof. exact read_arg_int_array_bangs. Qed.
+
+(* non-vacuity: "!%10^4.+8.." at time base 480 before ")" ; and the mixed list "(0,127,!1)" of the property text *)
+Example C04_bang_example :
+  bang_follow [41] = true /\ len_boundary [41] = true /\
+  read_arg_value 1 480 (33 :: print ex_e ++ [41]) 0 = Ok (AInt (10 + 720 + 420), [41], 0) /\
+  read_calc_literal 480 (33 :: print ex_e ++ [41]) 0 = Ok (Some (10 + 720 + 420), [41], 0) /\
+  Expr.read_value 480 [] 1 (33 :: print ex_e ++ [41]) = Ok (Some (Expr.TConstInt (10 + 720 + 420)), [41]) /\
+  read_arg_int_array 96 [40; 48; 44; 49; 50; 55; 44; 33; 49; 41] 0 = Ok ([0; 127; 384], [], 0) /\
+  read_arg_int_array 96 (40 :: print_bangs [ex_e; (mkAtom false false [2] 1, [])] ++ 41 :: [99]) 0 = Ok ([10 + 144 + 84; 288], [99], 0).
+Proof. repeat split; vm_compute; reflexivity. Qed.
+
 Print Assumptions C04_denotes.
 Print Assumptions C04_additive.
 Print Assumptions C04_literals.
@@ -93,3 +129,6 @@ Print Assumptions C04_token_blanks.
 Print Assumptions C04_token_line_break.
 Print Assumptions C04_token_safe.
 Print Assumptions C04_token_prefix.
+Print Assumptions C04_bang.
+Print Assumptions C04_bang_blanks.
+Print Assumptions C04_bang_array.
